@@ -467,6 +467,35 @@ func runC19(c *Ctx) {
 	if ttWrap != nil {
 		sum := c.Effects().sums[ttWrap]
 		r.Check("R19.3", FuncName(ttWrap), "returns a wrapper allocated by the call (the default decoration, not whatever t carried)", ttWrap.Pos(), sum != nil && sum.Fresh[0], "a result that can be an existing wrapper makes the selected decoration depend on the table's history")
+		// ... whose decoration is set here, to a default - never taken over from the table it is given
+		if tt != nil {
+			decorF := c.Field(tt, "decor")
+			for i, ret := range returnsOf(ttWrap) {
+				okD, whyD := false, "the returned wrapper's decoration is not assigned in Wrap"
+				for _, v := range phiClosure(results(ret)[0]) {
+					al, isAl := v.(*ssa.Alloc)
+					if !isAl {
+						continue
+					}
+					wholeCopy := false
+					for _, rr := range referrersOf(al) {
+						if st, isSt := rr.(*ssa.Store); isSt && st.Addr == ssa.Value(al) {
+							wholeCopy = true // *dup = *already: every field, the decoration included, comes from the argument
+						}
+					}
+					if wholeCopy {
+						okD, whyD = false, "the wrapper is a copy of an existing one: it carries that one's decoration"
+						break
+					}
+					for _, fs := range c.StoresTo(decorF) {
+						if fs.Fn == ttWrap && fs.Base == ssa.Value(al) && !derivesFrom(fs.St.Val, ttWrap.Params[0], 0) {
+							okD, whyD = true, ""
+						}
+					}
+				}
+				r.Check("R19.3", FuncName(ttWrap), fmt.Sprintf("return #%d: the new wrapper's decoration is a default chosen here", i+1), ret.Pos(), okD, whyD)
+			}
+		}
 	}
 
 	// R19.4
